@@ -45,6 +45,7 @@ ASSUMPTIONS = ["NumPy matmul / linalg.svd / eigvalsh / eigvals on dense sector m
 
 TOL_REC = 1e-11       # relative to ||a||
 TOL_ISO = 5e-12       # absolute, entries of U^+U - 1
+TOL_ISO_EIGH = 2e-11  # eigh (MRRR driver): orthogonality degrades for clustered / degenerate eigenvalues
 TOL_VAL = 1e-11       # spectrum vs numpy, relative to ||a||
 
 
@@ -62,7 +63,7 @@ def floors(tier):
             "lazy_operands": 250 * k, "fused_operands": 250 * k, "fused_hard": 80 * k, "fused_meta": 80 * k,
             "nonzero_charge": 150 * k, "rectangular_sectors": 300 * k, "complex_operands": 250 * k,
             "nU_false": 80 * k, "sU_minus": 200 * k, "negative_axis_args": 150 * k, "axis_not_default": 300 * k,
-            "fix_signs_columns": 200 * k, "compute_uv_false": 30 * k, "eig_biorthonormal_checked": 50 * k,
+            "fix_signs_columns": 200 * k, "designed_spectrum": 150 * k, "compute_uv_false": 30 * k, "eig_biorthonormal_checked": 50 * k,
             "which:LM": 30 * k, "which:SM": 30 * k, "which:LR": 30 * k, "which:SR": 30 * k}
 
 
@@ -84,8 +85,10 @@ class Env:
         nmode = self.rng.choice(("fit",) * 7 + ("zero", "zero", "any"))
         return D.gen_tensor(self.rng, self.nprng, self.sym, legs=legs, density=self.rng.choice((1.0, 1.0, 0.7, 0.5)), nmode=nmode)
 
-    def operand(self, ht, **kw):
-        op = F.make_operand(self.rng, ht, self.cfg, **kw)
+    def operand(self, ht, rng=None, **kw):
+        return F.make_operand(rng or self.rng, ht, self.cfg, **kw)
+
+    def count_operand(self, ht, op):
         c = self.ctx
         if op.info["state"] != "plain" or op.info["post"] != "none":
             c.count("lazy_operands")
@@ -99,7 +102,24 @@ class Env:
             c.count("complex_operands")
         if not ht.blocks:
             c.count("empty_operands")
-        return op
+
+    def split_operand(self, p_designed=0.25):
+        """Tensor, operand (lazy / fused) and ordered bipartition; with probability p_designed the singular values of every
+        sector of that bipartition are replaced by a designed set (exact-to-rounding degeneracies, zeros, all equal)."""
+        import random
+        rng = self.rng
+        ht = self.tensor()
+        state = rng.getstate()
+        operand = self.operand(ht)
+        left, right = F.bipartition(rng, operand.nlegs)
+        if ht.blocks and rng.random() < p_designed:
+            ht = F.redesign_svd(rng, ht, F.flat_axes(operand, left), F.flat_axes(operand, right))
+            r2 = random.Random()
+            r2.setstate(state)
+            operand = self.operand(ht, rng=r2)          # the same lazy state / fusion recipe on the new values
+            self.ctx.count("designed_spectrum")
+        self.count_operand(ht, operand)
+        return ht, operand, left, right
 
     def count_axis(self, *axs_defaults):
         for ax, default in axs_defaults:
@@ -349,9 +369,7 @@ def check_usv(E, op, ht, operand, left, right, U, S, V, sU, nU, Uaxis, Vaxis, ki
 def op_svd(E):
     import yastn
     ctx, rng = E.ctx, E.rng
-    ht = E.tensor()
-    operand = E.operand(ht)
-    left, right = F.bipartition(rng, operand.nlegs)
+    ht, operand, left, right = E.split_operand()
     axes = F.axes_arg(rng, left, right)
     variant = rng.choice(("full", "full", "full", "fix_signs", "fix_signs", "compute_uv_false", "defaults"))
     sU, nU = rng.choice((1, -1)), rng.choice((True, False))
@@ -444,9 +462,7 @@ def upper_triangular(ctx, op, blk, tol, where, w):
 def op_qr(E):
     import yastn
     ctx, rng = E.ctx, E.rng
-    ht = E.tensor()
-    operand = E.operand(ht)
-    left, right = F.bipartition(rng, operand.nlegs)
+    ht, operand, left, right = E.split_operand()
     axes = F.axes_arg(rng, left, right)
     sQ = rng.choice((1, -1))
     Qaxis, Raxis = F.rand_axis(rng, len(left) + 1), F.rand_axis(rng, len(right) + 1)
@@ -555,7 +571,7 @@ def hide_pairs(E, h, k):
     return hp, posL, posR
 
 
-def paired_operand(E, hp, posL, posR):
+def paired_operand(E, hp, posL, posR, count=True):
     """Operand in which legs may be fused, the same way on both sides (so that the two groups stay conjugate)."""
     rng = E.rng
     y, st = F.realize(hp, rng, E.cfg)
@@ -587,24 +603,40 @@ def paired_operand(E, hp, posL, posR):
         post = rng.choice(("lazy", "lazy", "consumed", "copy"))
         y = y.consume_transpose() if post == "consumed" else (y.copy() if post == "copy" else y)
     op = F.Operand(hp, y, tops, {"state": st, "fusion": levels, "post": post})
+    if count:
+        count_paired(E, hp, op)
+    return op, left, right
+
+
+def count_paired(E, hp, op):
     c = E.ctx
-    if st != "plain" or post != "none":
+    if op.info["state"] != "plain" or op.info["post"] != "none":
         c.count("lazy_operands")
-    if levels:
+    if op.info["fusion"]:
         c.count("fused_operands")
-        c.count("fused_" + fusion)
+        c.count("fused_" + op.info["fusion"][0][0])
     if "complex" in hp.dtype:
         c.count("complex_operands")
-    return op, left, right
 
 
 def op_eigh(E):
     import yastn
     ctx, rng = E.ctx, E.rng
-    kind = rng.choice(("herm", "herm", "herm"))
-    h, k = square_tensor(E, kind)
+    import random
+    kind = rng.choice(("herm", "herm", "herm", "designed", "psd"))
+    h, k = square_tensor(E, "herm")
     hp, posL, posR = hide_pairs(E, h, k)
-    operand, left, right = paired_operand(E, hp, posL, posR)
+    state = rng.getstate()
+    operand, left, right = paired_operand(E, hp, posL, posR, count=False)
+    if kind != "herm" and hp.blocks:
+        flatL, flatR = F.flat_axes(operand, left), F.flat_axes(operand, right)
+        hp = F.square_psd(hp, flatL, flatR) if kind == "psd" else F.redesign_eigh(rng, hp, flatL, flatR, False)
+        E.rng = random.Random()
+        E.rng.setstate(state)
+        operand, left, right = paired_operand(E, hp, posL, posR, count=False)
+        E.rng = rng
+        ctx.count("designed_spectrum", int(kind == "designed"))
+    count_paired(E, hp, operand)
     axes = F.axes_arg(rng, left, right)
     sU, which = rng.choice((1, -1)), rng.choice(("SR", "LR", "LM", "SM"))
     Uaxis = F.rand_axis(rng, len(left) + 1)
@@ -642,7 +674,7 @@ def op_eigh(E):
                 if not ctx.margin("eigh:reconstruction", err, TOL_REC * anorm):
                     ctx.violation("eigh:reconstruction", f"eigh: ||U S U^+ - a|| = {err:.3e} (allowed {TOL_REC * anorm:.2e}), connecting leg at "
                                   f"Uaxis={Uaxis}", w)
-                check_identity(ctx, "eigh", "U^+U", Um.conj().T @ Um, w)
+                check_identity(ctx, "eigh", "U^+U", Um.conj().T @ Um, w, TOL_ISO_EIGH)
                 compare_spectra(ctx, "eigh", S, sec, "eigh", which, anorm, w)
     ctx.count("op:eigh")
     ctx.case(("eigh", operand.sig(), left, right, sU, Uaxis, which), bool(hp.blocks), E.sample("eigh", hp, operand, params))
